@@ -15,6 +15,8 @@ REG.fields(
     lb='int', ub='int', final='int', fuel='int',
 )
 REG.uf('size', 'int', 'int')
+# sizes are non-negative (trusted together with the TreeNode.total_size contract below)
+REG.axiom('forall_ref(x, size(x) >= 0)')
 
 # node size: memoised property; per-class calculate_total_size is not verified here
 REG.contract('TreeNode.total_size', params={'self': 'ref[TreeNode]'}, returns='int', virtual=True, pure=True,
@@ -25,6 +27,7 @@ REG.contract('TreeNode.total_size', params={'self': 'ref[TreeNode]'}, returns='i
 REG.contract('TreeNode.edits', params={'self': 'ref[TreeNode]', 'node': 'ref[TreeNode]'}, returns='ref[Edit]',
              virtual=True, allocates=True,
              ensures=['result.from_node == self', 'result.to_node == node', 'isnew(result)',
+                      'not isinstance(result, Remove) and not isinstance(result, Insert)',
                       '0 <= result.lb and result.lb <= result.final and result.final <= result.ub',
                       'result.fuel >= 0'],
              trusted='interface contract E(X) of TreeNode.edits (proved per implementer where listed; '
@@ -70,4 +73,32 @@ REG.contract('Replace.__init__', self_cls='Replace',
                       'self._constant_cost >= 1', 'self._valid'],
              modifies=['from_node@self', 'to_node@self', '_constant_cost@self', '_cost_upper_bound@self',
                        '_valid@self', 'initial_bounds@self'])
+CC_COUPLING = ['self.lb == self._constant_cost', 'self.ub == self._constant_cost', 'self.final == self._constant_cost',
+               'self.fuel == 0']
+for _k in ('Remove.__init__', 'Insert.__init__', 'Match.__init__', 'Replace.__init__'):
+    REG.contracts[_k].assumed_ensures = list(CC_COUPLING)
+    REG.contracts[_k].note = ('coupling of the ghost range (lb, ub, final, fuel) with the constant cost is assumed at call '
+                              'sites; it is justified by the discharged contracts AbstractEdit.bounds and '
+                              'ConstantCostEdit.tighten_bounds and the mechanical check that these classes override neither')
+
+
+def _no_override(repo):
+    errs = []
+    for cls in ('Match', 'Replace', 'Remove', 'Insert'):
+        ci = repo.classes.get(cls)
+        if ci is None:
+            errs.append(f"class {cls} missing")
+            continue
+        for m in ('bounds', 'tighten_bounds'):
+            if m in ci.methods:
+                errs.append(f"{cls} overrides {m}")
+        if repo.lookup_method(cls, 'bounds') is None or repo.lookup_method(cls, 'bounds').cls != 'AbstractEdit':
+            errs.append(f"{cls}.bounds does not resolve to AbstractEdit.bounds")
+        tb = repo.lookup_method(cls, 'tighten_bounds')
+        if tb is None or tb.cls != 'ConstantCostEdit':
+            errs.append(f"{cls}.tighten_bounds does not resolve to ConstantCostEdit.tighten_bounds")
+    return errs
+
+
+REG.side_checks.append(_no_override)
 REG.targets = ['edits.Remove.__init__', 'edits.Insert.__init__', 'edits.Match.__init__', 'edits.Replace.__init__']
